@@ -58,12 +58,20 @@ BuildLexAsts(lo, hi) ==
   ELSE LET m == (lo + hi) \div 2 IN BuildLexAsts(lo, m) \o BuildLexAsts(m + 1, hi)
 LexAsts == BuildLexAsts(1, NG)
 
-RECURSIVE LexScan(_, _, _, _, _)
-LexScan(dsets, bytes, i, p, best) ==      \* dsets[t] = derivative set of term t after bytes[p+1..i]
+\* Scanning is done in chunks (inner recursion of at most CHUNK steps, outer recursion over chunks) so that the
+\* recursion depth stays ~ sqrt-like for lexemes of tens of thousands of bytes (deep Java stacks make every GC slow).
+CHUNK == 256
+RECURSIVE LexScan(_, _, _, _, _, _)
+LexScan(dsets, bytes, i, p, best, fuel) ==      \* dsets[t] = derivative set of term t after bytes[p+1..i]
   LET ok == {t \in DOMAIN dsets : AnyNul(dsets[t])}
       b2 == IF ok = {} THEN best ELSE <<TB + (CHOOSE t \in ok : \A u \in ok : t <= u) - 1, i - p>>
-  IN IF i = Len(bytes) \/ \A t \in DOMAIN dsets : dsets[t] = {} THEN b2
-     ELSE LexScan([t \in DOMAIN dsets |-> PDSet(bytes[i + 1], dsets[t])], bytes, i + 1, p, b2)
-LexRefAt(gg, bytes, p) == LexScan([t \in DOMAIN LexAsts[gg] |-> {LexAsts[gg][t]}], bytes, p, p, <<-1, 0>>)
+  IN IF i = Len(bytes) \/ \A t \in DOMAIN dsets : dsets[t] = {} THEN [done |-> TRUE, best |-> b2, ds |-> dsets, i |-> i]
+     ELSE IF fuel = 0 THEN [done |-> FALSE, best |-> b2, ds |-> dsets, i |-> i]
+     ELSE LexScan(TLCEval([t \in DOMAIN dsets |-> PDSet(bytes[i + 1], dsets[t])]), bytes, i + 1, p, b2, fuel - 1)
+RECURSIVE LexScanOuter(_, _, _, _, _)
+LexScanOuter(dsets, bytes, i, p, best) ==
+  LET r == LexScan(dsets, bytes, i, p, best, CHUNK) IN
+  IF r.done THEN r.best ELSE LexScanOuter(r.ds, bytes, r.i, p, r.best)
+LexRefAt(gg, bytes, p) == LexScanOuter(TLCEval([t \in DOMAIN LexAsts[gg] |-> {LexAsts[gg][t]}]), bytes, p, p, <<-1, 0>>)
 LexDispatch(gg, bytes, p) == IF Gs[gg].lex = "chars" THEN LexChars(gg, bytes, p) ELSE LexRefAt(gg, bytes, p)
 =============================================================================
